@@ -231,3 +231,12 @@ package packfile
 //gvc:  ensures range: 0 <= n && n <= len(p)
 //gvc:  ensures all: err == nil ==> n == len(p)
 //gvc:end
+
+// Encode returns the id of the pack it wrote (trusted here: the encoder's
+// trailer hash is not followed; C22 only needs that callers hand this id on).
+//gvc:func (*Encoder).Encode
+//gvc:  trusted
+//gvc:  results ph err
+//gvc:  modifies e.#packid
+//gvc:  ensures id: err == nil ==> e.#packid == keyid(ph)
+//gvc:end
